@@ -15,9 +15,9 @@ READS = {
     "C02": BASE + ("cb", "cbret"),
     "C05": BASE + ("cb", "cbret"),
     "C06": BASE + ("cb", "drop", "st"),
-    "C07": BASE + ("cb",),
+    "C07": BASE + ("cb", "st"),
     "C08": BASE,
-    "C09": BASE + ("reg", "cb", "cbret"),
+    "C09": BASE + ("reg", "cb", "cbret", "st"),
     "C13": BASE + ("idle", "idleret"),
     "C14": BASE + ("bs", "bhe", "cb"),
     "C15": BASE + ("st", "cb", "reg"),
